@@ -10,11 +10,11 @@ Import ListNotations.
 From Onet Require Export Base.Corr Overlay.TreeCtl.
 
 (* which repairs the code under /repo currently contains *)
-Definition code_fixed_F06 := false.   (* proposed_fixes/C07-F06.diff *)
-Definition code_fixed_F07 := false.   (* proposed_fixes/C07-F07.diff *)
-Definition code_fixed_F08 := false.   (* proposed_fixes/C07-F08.diff *)
-Definition code_fixed_N1 := false.    (* proposed_fixes/C06-N1.diff *)
-Definition code_fixed_N2 := false.    (* proposed_fixes/C06-N2.diff *)
+Definition code_fixed_F06 := true.   (* proposed_fixes/C07-F06.diff *)
+Definition code_fixed_F07 := true.   (* proposed_fixes/C07-F07.diff *)
+Definition code_fixed_F08 := true.   (* proposed_fixes/C07-F08.diff *)
+Definition code_fixed_N1 := true.    (* proposed_fixes/C06-N1.diff *)
+Definition code_fixed_N2 := true.    (* proposed_fixes/C06-N2.diff *)
 Definition code_fixes : fixes := mkFx code_fixed_F06 code_fixed_F07 code_fixed_F08 code_fixed_N1 code_fixed_N2.
 
 Notation zserver := (server Z).
